@@ -749,14 +749,22 @@ namespace chaiscript {
         std::vector<Boxed_Value> newplist;
         newplist.reserve(plist.size());
 
+        bool converted = false;
         const std::vector<Type_Info> &tis = matching_func->second->get_param_types();
-        std::transform(tis.begin() + 1, tis.end(), plist.begin(), std::back_inserter(newplist), [](const Type_Info &ti, const Boxed_Value &param) -> Boxed_Value {
+        std::transform(tis.begin() + 1, tis.end(), plist.begin(), std::back_inserter(newplist), [&converted](const Type_Info &ti, const Boxed_Value &param) -> Boxed_Value {
           if (ti.is_arithmetic() && param.get_type_info().is_arithmetic() && param.get_type_info() != ti) {
+            converted = true;
             return Boxed_Number(param).get_as(ti).bv;
           } else {
             return param;
           }
         });
+
+        if (!converted) {
+          // nothing to convert: this function was already offered exactly these arguments by dispatch() and
+          // declined them (its guard was evaluated then); calling it again would only repeat the guard's effects
+          throw exception::dispatch_error(plist, std::vector<Const_Proxy_Function>(t_funcs.begin(), t_funcs.end()));
+        }
 
         try {
           return (*(matching_func->second))(chaiscript::Function_Params{newplist}, t_conversions);
